@@ -19,7 +19,7 @@ P = 'src/css/parser.rs'
 
 M = [
  # --- C01
- ('C01', 'width0_guard_dropped', L, '        if width == 0 {\n            return Err(Error::TooNarrow);\n        }\n', ''),
+ ('C11', 'width0_guard_dropped', L, '        if width == 0 {\n            return Err(Error::TooNarrow);\n        }\n', ''),
  ('C01', 'unwrap_on_too_narrow', L, 'renderer.new_sub_renderer(renderer.width_minus(2, inner_min)?)?;', 'renderer.new_sub_renderer(renderer.width_minus(2, inner_min).unwrap())?;'),
  ('C01', 'ol_start_plain_add', L, 'let max_number = start.saturating_add(num_items as i64).saturating_sub(1);\n            let prefix_width_min', 'let max_number = start + (num_items as i64) - 1;\n            let prefix_width_min'),
  # --- C02
@@ -57,7 +57,7 @@ M = [
  ('C09', 'merge_ignores_tags_for_short_pieces', T, '                if ts_prev.tag == ts.tag {', '                if ts_prev.tag == ts.tag || (ts.s.len() == 1 && ts.s != " ") {'),
  # --- C10
  ('C10', 'coloured_skips_empty_lines', L, '            for line in lines {\n                for ts in line.tagged_strings() {\n                    result.push_str(&colour_map(&ts.tag, &ts.s));\n                }\n                result.push(\'\\n\');', '            for line in lines {\n                if line.tagged_strings().next().is_none() { continue; }\n                for ts in line.tagged_strings() {\n                    result.push_str(&colour_map(&ts.tag, &ts.s));\n                }\n                result.push(\'\\n\');'),
- ('C10', 'estimate_cached_across_min_wrap', L, '                    min_width: len.min(context.min_wrap_width),', '                    min_width: len.min(context.min_wrap_width.max(3)),'),
+ # (removed: a min_width floor applied on every route changes layout but is route-independent, so it does not break C10)
  # --- C11
  ('C11', 'hard_wrap_ignores_overflow_option', T, '                                if self.allow_overflow {\n                                    split_idx = c.len_utf8();', '                                if self.allow_overflow && self.width > 1 {\n                                    split_idx = c.len_utf8();'),
  ('C11', 'overflow_changes_min_width', T, '        Ok(new_width.max(min_width))', '        Ok(new_width.max(min_width + if self.options.allow_width_overflow { 1 } else { 0 }))'),
@@ -65,7 +65,7 @@ M = [
  ('C12', 'tab_stop_from_line_len_only', T, 'let mut pos = self.line.len + self.wslen;\n                            let mut at_least_one_space = false;', 'let mut pos = self.line.len;\n                            let mut at_least_one_space = false;'),
  ('C12', 'last_column_ge', T, 'if (self.line.len + self.wslen + cwidth) > self.width {', 'if (self.line.len + self.wslen + cwidth) >= self.width {'),
  # --- C13
- ('C13', 'comment_breaks_word', L, '        Comment { .. } => Nothing,\n        Element {', '        Comment { .. } => Finished(RenderNode::new(Text(" ".into()))),\n        Element {'),
+ ('C04', 'comment_breaks_word', L, '        Comment { .. } => Nothing,\n        Element {', '        Comment { .. } => Finished(RenderNode::new(Text(" ".into()))),\n        Element {'),
  ('C13', 'whitespace_kept_after_block_end', T, '            && self.at_block_end\n            && text.chars().all(char::is_whitespace)', '            && self.at_block_end\n            && text.chars().all(|c| c == \' \')'),
  # --- C14
  ('C14', 'trailing_fragments_dropped', T, '            self.pending_frags.extend(frags);', '            if frags.len() < 2 { self.pending_frags.extend(frags); }'),
@@ -119,7 +119,7 @@ def main():
         dp = os.path.join(OUT, key + '.diff')
         open(dp, 'w').write(diff)
         subprocess.run(['git', '-C', REPO, 'checkout', '-q', '--', '.'])
-        r = subprocess.run([os.environ.get('SEEDROOT', '/tmp/seedrun') + '/run.sh', dp, prop], capture_output=True, text=True)
+        r = subprocess.run([os.environ.get('SEEDROOT', '/tmp/seedrun') + '/run.sh', dp, prop], capture_output=True, text=True, errors='replace')
         lines = r.stdout.strip().splitlines()
         fired = [l for l in lines if l.startswith('FIRED:')]
         st = {'status': 'ran', 'fired': fired[-1][6:].split() if fired else ['?'],
